@@ -25,7 +25,7 @@ def same(a, b):
     return ca is not None and ca == cb
 
 
-def nondeterministic(ctx, query, records, times=16):
+def nondeterministic(ctx, query, records, times=96):
     """is the answer of a FRESH evaluation already not a function of (query, record)? (Go map order)"""
     res = kfl.run_cases(ctx, "eval", [[query, r] for r in records for _ in range(times)])
     for i in range(len(records)):
